@@ -50,7 +50,7 @@ FAMILIES = {
     "state": ["state_token_pass", "state_token_comment", "state_token_nl", "state_space",
               "state_flush"],                        # symbolic one-step summaries
     "state_order": _ORDER,                           # enumerated content/order, 2-3 min each
-    "table": ["table_concrete_to_python", "table_as_op_or_id"],
+    "table": ["table_concrete_to_python", "table_as_op_or_id", "table_long_names"],
 }
 ALL = [h for fam in FAMILIES.values() for h in fam]
 
